@@ -32,13 +32,20 @@ def _merge(a: dict, b: dict, path=None):
 
 
 def _comment_out_toml(s: str):
-    # Only comment out keys, not headers or empty lines
-    return "\n".join(
-        [
-            "#" + line if line.strip() and not line.strip().startswith("[") else line
-            for line in s.split("\n")
-        ]
-    )
+    # Only comment out keys, not headers or empty lines.
+    # Array-of-tables headers ([[name]]) and every header after the first of them are commented
+    # out as well: left in place they would define empty elements and sub-tables that override
+    # the defaults on the next load.
+    lines = []
+    seen_aot = False
+    for line in s.split("\n"):
+        stripped = line.strip()
+        if stripped.startswith("[["):
+            seen_aot = True
+        if stripped and (seen_aot or not stripped.startswith("[")):
+            line = "#" + line
+        lines.append(line)
+    return "\n".join(lines)
 
 
 def load_config_toml(
